@@ -275,7 +275,10 @@ def execute(mod, tier: str, seed: int) -> int:
         rc = max(rc, 1) if rc != 2 else 2
     for sig in known_hit:
         print(f"KNOWN-FINDING: property={prop} {known[sig]}")
-    exhaustive = plan.get("exhaustive", True)
+    # a cap reported by any shard (keys ending in cap_hit / capped) makes the run non-exhaustive
+    exhaustive = plan.get("exhaustive", True) and not any(
+        k.endswith("cap_hit") or k.endswith("capped") or k == "new_global_locations" for k in total.extra
+    )
     path = write_evidence(prop, tier, seed, total, mod, wall, exhaustive, reported)
     print(
         f"{prop} tier={tier} seed={seed} shards={len(shards)} states={total.states} "
